@@ -281,7 +281,7 @@ def r4_effective_limit(ctx):
             ctx.check(R, "effective-limit:%s" % name, got == want, "code=%s spec=%s" % (got, want), f)
         except (A.LeavesFragment, KeyError) as e:
             ctx.check(R, "effective-limit:%s" % name, False, "interpretation aborted: %r" % (e,), f)
-    lr = ctx.need_fn(ctx.ds, R, r"^router::HttpRouter::<Context>::lookup_route$")
+    lr = ctx.need_fn(ctx.dsn, R, r"^router::HttpRouter::<Context>::lookup_route$")
     aggs = list(lr.aggregates(r"^handler::RequestEndpointMetadata$"))
     if len(aggs) != 1:
         ctx.lost(R, "the RequestEndpointMetadata aggregate in lookup_route")
@@ -292,6 +292,9 @@ def r4_effective_limit(ctx):
     bad = callee_allow(s, PLUMBING + [r"^router::find_handler_matching_version$"])
     ok = s.has_call(r"^router::find_handler_matching_version$") and s.reads_field("request_body_max_bytes") and not bad \
         and not any(a[0] in ("lit", "binop") for a in s.atoms)
+    if not ok:
+        from .lib_c01 import answer_field_from_selection
+        ok = answer_field_from_selection(ctx.dsn, lr, st["rv"]["ops"][fi], "request_body_max_bytes")[0]
     ctx.check(R, "override-carried-from-selected-endpoint", ok, "RequestEndpointMetadata.request_body_max_bytes <- (*selected endpoint).request_body_max_bytes: %s" % ok, (lr, bb))
 
 
